@@ -55,11 +55,34 @@ fn dictionary(c: &mut dyn Choices, n: usize) -> Vec<(Ev, String)> {
         p.max_depth = 3;
         p.funcs.retain(|f| f.canon != "ilog");
         let s = grammar::render(&gen::gen_expr(&p, c, p.max_depth));
-        let s = match c.below(5) {
+        let s = match c.below(9) {
             0 => gen::mutate(ev, &s, c).0,         // malformed
             1 => format!("{}/0+w(-5)", s),          // error-producing in most evaluators
-            2 => format!("{}+@", s),
+            2 | 3 => format!("{}+@", s),
+            // rejected by the lexer (scratch buffers of the literal scanner, error paths that return early)
+            4 => format!("{}+{}", s, ["1.2.3", "1..5", "3.14.15", "99999999999999999999999999999999999999", "#", "2$", ".", "1.2.3.4+7"][c.below(8) as usize]),
+            // aggregates around failing and around nested aggregates (shared accumulators)
+            5 => {
+                let agg = ["min", "max", "avg", "med", "median"][c.below(5) as usize];
+                let inner = ["w(-5)", "1/0*w(-5)", "med(1,2,3)", "max(4,min(5,6))", "med(7,w(-5),9)", "@"][c.below(6) as usize];
+                match c.below(3) {
+                    0 => format!("{}({},2,{})", agg, inner, s),
+                    1 => format!("{}(5,9,{})", agg, inner),
+                    _ => format!("{}(1,2,{})+{}(10,20,30)", agg, inner, agg),
+                }
+            }
             _ => s,
+        };
+        // whitespace anywhere (it is stripped before lexing): copies of the stripped text are another place for state
+        let s = if c.below(3) == 0 {
+            let mut cs: Vec<char> = s.chars().collect();
+            for _ in 0..(1 + c.below(4)) {
+                let at = c.below(cs.len() as u32 + 1) as usize;
+                cs.insert(at, [' ', ' ', '\t', '\n', '\u{a0}', '\u{2009}', '\u{3000}'][c.below(7) as usize]);
+            }
+            cs.into_iter().collect()
+        } else {
+            s
         };
         if char_len(&s) <= 120 {
             v.push((ev, s));
@@ -109,7 +132,7 @@ impl Prop for C16Prop {
         "C16"
     }
     fn rule(&self) -> String {
-        "Cases are call histories: 200..1000 (quick) / up to 5000 (thorough) calls (evaluator, expression, placeholder) drawn from a per-history dictionary of 12..60 expressions (well-formed with and without @, error-producing, malformed, plus 1..3 argument sweeps: one function - Lambert W weighted - at 3..6 nearby arguments) so that keys repeat, each reused with changing placeholders and interleaved across all five evaluators; the whole history is one generated value (a choice sequence) and shrinks as one. Oracle (no-state model): every occurrence of a key must return, bit for bit, the outcome of its isolated first-time evaluation, computed by a fresh child process making exactly that one call. The history is run sequentially in-process, then replayed concurrently by 16 threads each starting at a different rotation, then every thread evaluates the deepest inputs 256 characters allow at the same time as the others (process-wide counters), then hammers one expression with different placeholders. One call in five is followed by an immediate repeat of the same expression with a placeholder pair that compares equal but differs (0.0/-0.0, 2/2.00, Integer 3/Float 3.0). non-trivial = an occurrence whose expression occurred earlier in the history with a different placeholder or evaluator, or that directly follows an Err-producing call; distinct by (key, predecessor key). evaluations counts library calls (sequential + concurrent + child processes).".into()
+        "Cases are call histories: 200..1000 (quick) / up to 5000 (thorough) calls (evaluator, expression, placeholder) drawn from a per-history dictionary of 12..60 expressions (well-formed with and without @, error-producing, malformed for the parser and for the lexer (1.2.3, 1..5, stray characters), aggregates around failing arguments and around nested aggregates, whitespace of several kinds sprinkled into a third of the entries, plus 1..3 argument sweeps: one function - Lambert W weighted - at 3..6 nearby arguments) so that keys repeat, each reused with changing placeholders and interleaved across all five evaluators; the whole history is one generated value (a choice sequence) and shrinks as one. Oracle (no-state model): every occurrence of a key must return, bit for bit, the outcome of its isolated first-time evaluation, computed by a fresh child process making exactly that one call. The history is run sequentially in-process, then replayed concurrently by 16 threads each starting at a different rotation, then every thread evaluates the deepest inputs 256 characters allow at the same time as the others (process-wide counters), then hammers one expression with different placeholders. One call in five is followed by an immediate repeat of the same expression with a placeholder pair that compares equal but differs (0.0/-0.0, 2/2.00, Integer 3/Float 3.0). non-trivial = an occurrence whose expression occurred earlier in the history with a different placeholder or evaluator, or that directly follows an Err-producing call; distinct by (key, predecessor key). evaluations counts library calls (sequential + concurrent + child processes).".into()
     }
     fn assumptions(&self) -> Vec<String> {
         vec!["thread interleavings are whatever the OS produces under 16-way contention (not enumerated): the crate uses no synchronisation primitive a schedule explorer could intercept".into()]
